@@ -684,6 +684,9 @@ impl Prop for C01Prop {
         let case = decode_case(b, tier, None);
         Some(json!({"source": render_program(&case.prog, Some(Dialect::Cl23)), "args": case.args.iter().map(|a| a.show()).collect::<Vec<_>>(), "features": case.feats}))
     }
+    fn sut_crash_is_violation(&self) -> bool {
+        false
+    }
     fn case_timeout(&self) -> (u64, bool) {
         (25, false)
     }
